@@ -376,16 +376,23 @@ def cli_rejection(res):
 
     wd = os.path.join(vlib.WORK, "c12_cli")
     os.makedirs(wd, exist_ok=True)
-    for script, args in (("hypnotoad.scripts.hypnotoad_geqdsk", ["nofile.geqdsk", "in.yaml"]), ("hypnotoad.scripts.hypnotoad_circular", ["in.yaml"])):
-        res.case(key=("cli-unknown-option", script), nontrivial=True)
+    # a made-up name, and names that are options of the *other* generator only
+    for script, args, inp, bad_name in (
+            ("hypnotoad.scripts.hypnotoad_geqdsk", ["nofile.geqdsk", "in.yaml"], {"nx_core": 3, "not_an_option_of_hypnotoad": 1}, "not_an_option_of_hypnotoad"),
+            ("hypnotoad.scripts.hypnotoad_circular", ["in.yaml"], {"nx": 3, "not_an_option_of_hypnotoad": 1}, "not_an_option_of_hypnotoad"),
+            ("hypnotoad.scripts.hypnotoad_circular", ["in.yaml"], {"nx": 3, "psinorm_core": 0.9}, "psinorm_core"),
+            ("hypnotoad.scripts.hypnotoad_circular", ["in.yaml"], {"ny_inner_divertor": 4}, "ny_inner_divertor"),
+            ("hypnotoad.scripts.hypnotoad_geqdsk", ["nofile.geqdsk", "in.yaml"], {"nx_core": 3, "r_inner": 0.1}, "r_inner"),
+            ("hypnotoad.scripts.hypnotoad_geqdsk", ["nofile.geqdsk", "in.yaml"], {"q_coefficients": [2.0]}, "q_coefficients")):
+        res.case(key=("cli-unknown-option", script, bad_name), nontrivial=True)
         with open(os.path.join(wd, "in.yaml"), "w") as fh:
-            yaml.safe_dump({"nx_core": 3, "not_an_option_of_hypnotoad": 1}, fh)
+            yaml.safe_dump(inp, fh)
         p = subprocess.run([sys.executable, "-c", "import sys; sys.path.insert(0, %r); import %s as m; sys.argv=['x']+%r; m.main()" % (vlib.REPO, script, args)],
                            cwd=wd, stdout=subprocess.PIPE, stderr=subprocess.STDOUT, timeout=600)
         txt = p.stdout.decode()
         if p.returncode == 0:
-            res.violation("cli-unknown-option-accepted:" + script.split(".")[-1], "%s runs to completion with an unknown option in the input file" % script, {})
-        elif "not_an_option_of_hypnotoad" not in txt:
+            res.violation("cli-unknown-option-accepted:" + script.split(".")[-1], "%s runs to completion with the unknown option %s in the input file" % (script, bad_name), {"input": inp})
+        elif bad_name not in txt:
             res.violation("cli-unknown-option-other-error:" + script.split(".")[-1], "%s fails for another reason before rejecting the unknown option: %s" % (script, txt[-200:]), {})
         else:
             res.traces += 1
